@@ -10,20 +10,20 @@ use crypto_bigint::modular::ConstMontyForm;
 use crypto_bigint::{impl_modulus, Checked, Encoding, Limb, NonZero, Odd, Uint, Wrapping, U128, U256, U64};
 use serde::{de::DeserializeOwned, Serialize};
 
-fn bin<T: Serialize>(what: &str, v: &T) -> Result<Vec<u8>, Fail> {
+pub(crate) fn bin<T: Serialize>(what: &str, v: &T) -> Result<Vec<u8>, Fail> {
     bincode::serialize(v).map_err(|e| Fail::new(format!("{what}: bincode serialize failed: {e}")))
 }
-fn unbin<T: DeserializeOwned>(what: &str, b: &[u8]) -> Result<T, Fail> {
+pub(crate) fn unbin<T: DeserializeOwned>(what: &str, b: &[u8]) -> Result<T, Fail> {
     bincode::deserialize(b).map_err(|e| Fail::new(format!("{what}: bincode deserialize of its own output failed: {e}")))
 }
-fn json<T: Serialize>(what: &str, v: &T) -> Result<String, Fail> {
+pub(crate) fn json<T: Serialize>(what: &str, v: &T) -> Result<String, Fail> {
     serde_json::to_string(v).map_err(|e| Fail::new(format!("{what}: JSON serialize failed: {e}")))
 }
-fn unjson<T: DeserializeOwned>(what: &str, s: &str) -> Result<T, Fail> {
+pub(crate) fn unjson<T: DeserializeOwned>(what: &str, s: &str) -> Result<T, Fail> {
     serde_json::from_str(s).map_err(|e| Fail::new(format!("{what}: JSON deserialize of its own output {s} failed: {e}")))
 }
 
-fn serde_fixed<const N: usize>(t: &mut Tape, c: &mut Case) -> CaseResult
+pub(crate) fn serde_fixed<const N: usize>(t: &mut Tape, c: &mut Case) -> CaseResult
 where
     Uint<N>: Encoding,
 {
@@ -170,7 +170,7 @@ impl_modulus!(M64, U64, "ffffffffffffffc5");
 impl_modulus!(M128, U128, "000000000000000100000000000000d1");
 impl_modulus!(M256, U256, "ffffffff00000001000000000000000000000000ffffffffffffffffffffffff");
 
-fn monty_case<const N: usize, MOD>(modulus_be_hex: &'static str) -> impl Fn(&mut Tape, &mut Case) -> CaseResult
+pub(crate) fn monty_case<const N: usize, MOD>(modulus_be_hex: &'static str) -> impl Fn(&mut Tape, &mut Case) -> CaseResult
 where
     MOD: crypto_bigint::modular::ConstMontyParams<N>,
     Uint<N>: Encoding,
